@@ -48,6 +48,9 @@ Clauses(in, out) ==
           IF c = 0 THEN out.rows[k].td = 0
           ELSE out.rows[k].td > 0 /\ out.rows[k].tok /\ out.rows[k].tn * c = PSum(in, "temp", k - 1) * out.rows[k].td>>,
      <<"UncertaintyIsRootSumSquare", shape => \A k \in 1..n : out.rows[k].u2ok /\ out.rows[k].u2 = PSum(in, "u2", k - 1)>>,
+     <<"SavingsFromAggregatedColumnsEqualRowwiseSavings", (shape /\ in.hasObs /\ in.obsExact) =>
+          Total([k \in 1..n |-> out.rows[k].obs], n) - Total([k \in 1..n |-> out.rows[k].pred], n)
+            = Total([i \in 1..Len(in.days) |-> IF in.days[i].pred.h /\ in.days[i].obs.h THEN in.days[i].obs.v - in.days[i].pred.v ELSE 0], Len(in.days))>>,
      <<"TotalsConserved", shape => Total([k \in 1..n |-> out.rows[k].pred], n) = Total([i \in 1..Len(in.days) |-> IF in.days[i].pred.h THEN in.days[i].pred.v ELSE 0], Len(in.days))>> >>
 Failing(in, out) == LET c == Clauses(in, out) IN {c[k][1] : k \in {k \in 1..Len(c) : ~c[k][2]}}
 =============================================================================
